@@ -66,6 +66,11 @@ def snapshot(o):
                 shape=list(arr.shape[:-1]))
 
 
+def finite(o):
+    """all knots and control points of an implementation object are finite numbers"""
+    return bool(np.isfinite(np.asarray(o.controlpoints)).all() and all(np.isfinite(b.knots).all() for b in o.bases))
+
+
 def basis_tokens(b):
     return '%d %d %s' % (b['order'], b['periodic'] + 1, C.qlist(b['knots']))
 
